@@ -47,7 +47,8 @@ ASSUMPTIONS = ['all packets of a case arrive in one read batch (<= 40)']
 
 IN_FILTERS = ['Packet', 'AbstractKA', 'CbKA', 'Chat', 'PosLook',
               'LoginSuccess', 'LoginSetCompression', 'PluginRequest',
-              'PlayDisconnect', 'CombatEvent', 'DeathCombat', 'Map', 'SbKA']
+              'PlayDisconnect', 'CombatEvent', 'DeathCombat', 'Map', 'SbKA',
+              'PluginMessage', 'PlaySetCompression', 'LoginDisconnect']
 OUT_FILTERS = ['Packet', 'AbstractKA', 'SbKA', 'HandShake', 'LoginStart',
                'PluginResponse', 'TeleportConfirm', 'SbPosLook', 'SbChat',
                'CbKA', 'Map']
@@ -63,6 +64,9 @@ KIND_MATCH = {
     'success': {'Packet', 'LoginSuccess'},
     'disconnect': {'Packet', 'PlayDisconnect'},
     'death': {'Packet', 'CombatEvent', 'DeathCombat'},
+    # classes that share a packet_name with another class:
+    'plugin_msg': {'Packet', 'PluginMessage'},          # 'base' like unknown
+    'play_compress': {'Packet', 'PlaySetCompression'},  # 'set compression'
     # outgoing
     'HandShakePacket': {'Packet', 'HandShake'},
     'LoginStartPacket': {'Packet', 'LoginStart'},
@@ -91,6 +95,9 @@ def filter_classes():
         'CombatEvent': cb.play.CombatEventPacket,
         'DeathCombat': cb.play.DeathCombatEventPacket,
         'Map': cb.play.MapPacket,
+        'PluginMessage': cb.play.PluginMessagePacket,
+        'PlaySetCompression': cb.play.SetCompressionPacket,
+        'LoginDisconnect': cb.login.DisconnectPacket,
         'HandShake': sb.handshake.HandShakePacket,
         'LoginStart': sb.login.LoginStartPacket,
         'PluginResponse': sb.login.PluginResponsePacket,
@@ -128,9 +135,14 @@ def dispatch_case(ctx, case):
     si = kinds.index('success')
     last = len(kinds) - 1
 
+    if 'play_compress' in kinds:
+        # a user packet written before the client has processed a
+        # compression switch would race with the script's own switch
+        si = max(si, kinds.index('play_compress'))
+
     def writes_at(i):
         # user packets are play-state packets: only between login success
-        # and the final disconnect
+        # (and a play-state compression switch) and the final disconnect
         return si < i < last
 
     def matches(l, kind):
@@ -205,6 +217,17 @@ def dispatch_case(ctx, case):
         elif h[0] == 'death':
             play.append(('raw', 0x35, wire.varint(7) + wire.sint(-3, 32) +
                          wire.string('died')))
+        elif h[0] == 'plugin_msg':
+            from minecraft.networking.packets.clientbound import play as cbp
+            pid = cbp.PluginMessagePacket.get_id(P4.ctx_for(version))
+            play.append(('raw', pid, wire.string('a:b') + h[1]))
+        elif h[0] == 'play_compress':
+            if reacted[i]:
+                play.append(('play_set_compression', {'threshold': h[1]}))
+            else:
+                pid, payload = servers.encode(version, 'play_set_compression',
+                                              threshold=h[1])
+                play.append(('raw', pid, payload))
     srv = servers.Server({'version': version, 'login': login,
                           'play': {'bursts': [play], 'mode': 'all',
                                    'end': 'disconnect'}})
@@ -404,9 +427,16 @@ def history_strategy(version):
     ]
     if version == 757:
         play_items.append(st.tuples(st.just('death')))
+    play_items.append(st.tuples(st.just('plugin_msg'), st.binary(max_size=8)))
+    if version == 47:
+        play_items.append(st.tuples(st.just('play_compress'),
+                                    st.sampled_from([0, 64])))
 
     def build(t):
         lg, pl = t
+        # a play-state compression switch only as the first play packet
+        pc = [x for x in pl if x[0] == 'play_compress'][:1]
+        pl = pc + [x for x in pl if x[0] != 'play_compress']
         seen_comp = False
         out = []
         for x in lg:
@@ -466,6 +496,11 @@ def t_fixed(ctx):
     for v in (757, 340, 47):
         hist = [('compress', 64), ('success',), ('ka', 1), ('pos', 5),
                 ('unknown', b'zz'), ('ka', 2), ('chat', '{"text":"a"}')]
+        hist = hist + [('unknown', b'q'), ('plugin_msg', b'xy'),
+                       ('unknown', b'')]
+        if v == 47:
+            k = hist.index(('success',)) + 1
+            hist = hist[:k] + [('play_compress', 0)] + hist[k:]
         if v == 757:
             hist = [('plugin', 9)] + hist + [('death',)]
         n = len(hist)
@@ -481,6 +516,12 @@ def t_fixed(ctx):
              'write': ('forced', 'f')},
             {'cls': 'oo', 'types': ['AbstractKA', 'SbChat'], 'ignore': [],
              'write': None},
+            {'cls': 'io', 'types': ['PluginMessage'], 'ignore': [],
+             'write': None},
+            {'cls': 'ie', 'types': ['PlaySetCompression'], 'ignore': [],
+             'write': None},
+            {'cls': 'io', 'types': ['LoginSetCompression', 'LoginDisconnect'],
+             'ignore': [], 'write': None},
         ]
         dispatch_case(ctx, {'version': v, 'history': hist,
                             'listeners': base, 'decorator': False})
